@@ -172,6 +172,27 @@ class Series:
         u = self - 1
         return u.compose_taylor(lambda k: Fraction((-1) ** (k + 1), k) if k else 0)
 
+    def asin(self):
+        def co(k):
+            if k % 2 == 0:
+                return 0
+            m = (k - 1) // 2
+            return Fraction(factorial(2 * m), (4 ** m) * factorial(m) ** 2 * (2 * m + 1))
+        return self.compose_taylor(co)
+
+    def acos(self):
+        """acos of a series with constant term exactly 1 and otherwise non-positive leading deviation: acos(1 - u) = 2 asin(sqrt(u/2));
+        acos of a vanishing series: pi/2 - asin (pi as a double-precision rational)"""
+        if self.coeff(0) == 1 and (not self.c or self.val() == 0):
+            u = Series.const(1, self.N) - self
+            if not u.c:
+                raise Unsupported("acos(1) to the computed order")
+            return (u * Fraction(1, 2)).sqrt().asin() * 2
+        if not self.c or self.val() >= 1:
+            import math
+            return Series.const(Fraction(math.pi / 2), self.N) - self.asin()
+        raise Unsupported("acos of a series with constant term other than 0 or 1")
+
     def sqrt(self):
         if not self.c:
             raise Unsupported("sqrt of zero series")
